@@ -285,7 +285,7 @@ def dict_rich():
     sub = vals.values(2)
     wrap = st.one_of(big, big.map(lambda d: ["list", [d]]), big.map(lambda d: ["tuple", [d, ["lit", 0]]]),
                      big.map(lambda d: ["dict", [[["lit", "a"], d]]]), big.map(lambda d: ["ddict", [[["lit", 0], d]]]),
-                     big.map(lambda d: ["dict", [[["lit", 0], d]]]))
+                     big.map(lambda d: ["dict", [[["lit", 0], d]]]), big.map(lambda d: ["deque", [d]]), big.map(lambda d: ["odict", [[["lit", "a"], d]]]))
     oddkey = st.sampled_from([["lit", None], ["lit", True], ["lit", 0], ["lit", 1.5], ["lit", "a"], ["lit", "b"], ["inst", "Base"],
                               ["cls", "int"], ["special", "NT"], ["special", "MyStr"], ["tuple", []]])
     small_mixed = st.lists(st.tuples(oddkey, vals.simple_atoms).map(list), min_size=1, max_size=3).map(lambda l: ["dict", l])
